@@ -19,6 +19,10 @@ def dispatch (cmd : String) (args : List String) : Option String :=
   | "pspec" => Driver.handlePSpec args
   | "cert" => Driver.handleCert args
   | "caps" => Driver.handleCaps args
+  | "escape" => Driver.handleEscape args
+  | "certb" => Driver.handleCertB args
+  | "allci" => Driver.handleAllCi args
+  | "ismagic" => Driver.handleIsMagic args
   | "ping" => some "pong"
   | _ =>
     match Driver.Lists.handlers.lookup cmd with
